@@ -48,6 +48,23 @@ Example C02_pok_accepts_and_rejects :
   /\ pok tbA (Pre MINUS (Post (Opd 1) PCT)) = false /\ pok tbA (Post (Pre MINUS (Opd 1)) PCT) = true.
 Proof. vm_compute. repeat split; reflexivity. Qed.
 
+(* extent: for ANY table and ANY token sequence the expression the loop returns ends at e only where it has to end:
+   no postfix operator of the table stands at e, and no infix operator either - unless that operator is not followed by an
+   operand (after any number of prefix operators comes no operand: it is left unconsumed) or belongs to a non-associative
+   row (operators of such a row are not chained).  Together with C02_yield: the run consumed is a longest one. *)
+Theorem C02_extent : forall tb toks k sf t e,
+  main2 tb toks k (MK [] [] 0 0 0) = Some sf -> finish sf = Some (t, e) -> stop_ok tb toks e.
+Proof. exact run2_stop. Qed.
+Print Assumptions C02_extent.
+(* each stop reason occurs: 1+2 3 (no operator), 1+ and 1+- (dangling), 1-2-3 with a non-associative row, 1% (end of input) *)
+Example C02_extent_reasons :
+  loop tbA [TOpd 1; TOp PLUS; TOpd 2; TOpd 3] = Some (Inf (Opd 1) PLUS (Opd 2), 3)
+  /\ loop tbA [TOpd 1; TOp PLUS] = Some (Opd 1, 1)
+  /\ loop tbA [TOpd 1; TOp PLUS; TOp MINUS] = Some (Opd 1, 1)
+  /\ loop tb4 [TOpd 1; TOp MINUS; TOpd 2; TOp MINUS; TOpd 3] = Some (Inf (Opd 1) MINUS (Opd 2), 3)
+  /\ loop tbA [TOpd 1; TOp PCT] = Some (Post (Opd 1) PCT, 2).
+Proof. vm_compute. repeat split; reflexivity. Qed.
+
 (* the loop returns the tree and the extent of the reference (precedence, associativity,
    non-chaining of non-associative rows, prefix/postfix attachment, longest run):
    proved here for ALL token strings up to the stated length over four tables that
